@@ -319,15 +319,6 @@ class Gen:
         return has_store, mn, mx
 
 
-def cq_kind(v):
-    k = kind_of(v)
-    if k[0] == "plain":
-        return "KPlain"
-    if k[0] == "own":
-        return f"(KOwn {cq_bytes(record_hash(v).encode())})"
-    return f"(KFileCache {cq_bytes(k[1].encode())})"
-
-
 class Check(PropertyCheck):
     id = "C31"
     module = "Props.C31"
@@ -363,15 +354,19 @@ class Check(PropertyCheck):
 
     # ------------------------------------------------------------------
     def translate(self):
+        GEN.mkdir(exist_ok=True)
+        p, t = GEN / "C31Gen.v", GEN / "C31Tie.v"
+        self.shape = "shipped"     # what the correspondence uses if the source is not recognised
+        for f in (p, t, p.with_suffix(".vo"), t.with_suffix(".vo")):
+            if f.exists():
+                f.unlink()
         try:
             text, self.cfg = tr_valuestore.translate()
         except astutil.TranslateError as e:
             raise TranslateError(str(e))
-        GEN.mkdir(exist_ok=True)
-        p = GEN / "C31Gen.v"
         p.write_text(text)
-        t = GEN / "C31Tie.v"
         t.write_text(tr_valuestore.TIE)
+        self.shape = "gen"
         return [p, t]
 
     # ------------------------------------------------------------------ histories
@@ -389,8 +384,8 @@ class Check(PropertyCheck):
             pool.append(EmptySer())
         conf = g.conf(pool)
         evs = []
-        for _ in range(r.randint(6, 14)):
-            k = r.random()
+        for n_ev in range(r.randint(6, 14)):
+            k = r.random() if n_ev >= 2 else 0.0      # start with two recordings
             i = r.randrange(len(pool))
             if k < 0.45:
                 evs.append(("rec", i))
@@ -410,13 +405,13 @@ class Check(PropertyCheck):
         real = Real(root, *conf)
         try:
             # the table depends on the FileCache directories of this backend
-            table = [(cq_kind(v), pickle_of(v), expected_data(v), record_hash(v), v) for v in pool]
+            table = [(None, pickle_of(v), expected_data(v), record_hash(v), v) for v in pool]
             res = []
             for kind, i in evs:
                 v = pool[i]
                 if kind == "rec":
                     x = real.record(v)
-                    res.append(f"(RHash {cq_bytes(x[1].encode())})" if x[0] == "hash" else "RTooLarge")
+                    res.append(("hash", x[1].encode()) if x[0] == "hash" else "RTooLarge")
                     self.stat("event", "record:" + x[0])
                 elif kind == "get":
                     x = real.get(table[i][3])
@@ -446,30 +441,46 @@ class Check(PropertyCheck):
 
     def case_term(self, pool, conf, evs, res, rows, stored, cfiles, table):
         from redun.hashing import hash_bytes
-        t = cq_list([f"({k}, {cq_bytes(p)})" for k, p, _, _, _ in table])
-        ht = cq_list([f"({cq_bytes(d)}, {cq_bytes(h.encode())})" for _, _, d, h, _ in table])
-        hbt = cq_list([f"({cq_bytes(p)}, {cq_bytes(hash_bytes(p).encode())})" for _, p, _, _, _ in table])
+        names = {}
+
+        def lit(b):            # every byte string is written once per case (let-bound)
+            if b not in names:
+                names[b] = f"x{len(names)}"
+            return names[b]
+
+        def kind(v):
+            k = kind_of(v)
+            if k[0] == "plain":
+                return "KPlain"
+            if k[0] == "own":
+                return f"(KOwn {lit(record_hash(v).encode())})"
+            return f"(KFileCache {lit(k[1].encode())})"
+        t = cq_list([f"({kind(v)}, {lit(p)})" for _, p, _, _, v in table])
+        ht = cq_list([f"({lit(d)}, {lit(h.encode())})" for _, _, d, h, _ in table])
+        hbt = cq_list([f"({lit(p)}, {lit(hash_bytes(p).encode())})" for _, p, _, _, _ in table])
         cev = []
-        for kind, i in evs:
-            if kind == "rec":
+        for k, i in evs:
+            if k == "rec":
                 cev.append(f"ERecord {i}%nat")
-            elif kind == "get":
-                cev.append(f"EGet {cq_bytes(table[i][3].encode())}")
-            elif kind == "lose":
-                cev.append(f"ELoseStored {cq_bytes(table[i][3].encode())}")
+            elif k == "get":
+                cev.append(f"EGet {lit(table[i][3].encode())}")
+            elif k == "lose":
+                cev.append(f"ELoseStored {lit(table[i][3].encode())}")
             else:
-                cev.append(f"ELoseFile {cq_bytes(table[i][2])}")
-        crow = cq_list([f"({cq_bytes(h.encode())}, {{| r_tag := {'TFileCache' if ty in FC_TYPE_NAMES else 'TPickle'}; "
-                        f"r_value := {cq_bytes(val)} |}})" for h, (ty, val) in rows.items()])
-        cst = cq_list([f"({cq_bytes(h.encode())}, {cq_bytes(d)})" for h, d in stored.items()])
-        cfl = cq_list([f"({cq_bytes(p.encode())}, {cq_bytes(d)})" for p, d in cfiles.items()])
+                cev.append(f"ELoseFile {lit(table[i][2])}")
+        cres = [f"(RHash {lit(x[1])})" if isinstance(x, tuple) else x for x in res]
+        crow = cq_list([f"({lit(h.encode())}, {{| r_tag := {'TFileCache' if ty in FC_TYPE_NAMES else 'TPickle'}; "
+                        f"r_value := {lit(val)} |}})" for h, (ty, val) in rows.items()])
+        cst = cq_list([f"({lit(h.encode())}, {lit(d)})" for h, d in stored.items()])
+        cfl = cq_list([f"({lit(p.encode())}, {lit(d)})" for p, d in cfiles.items()])
         has_store, mn, mx = conf
         cf = f"{{| has_store := {'true' if has_store else 'false'}; min_size := {cq_Z(mn)}; max_size := {cq_Z(mx)} |}}"
-        return (f"case_ok gen {cf} {t} {ht} {hbt} {cq_list(cev)} {cq_list(res)} {crow} {cst} {cfl}")
+        lets = "".join(f"let {n} := {cq_bytes(b)} in " for b, n in names.items())
+        return (f"({lets}case_ok {self.shape} {cf} {t} {ht} {hbt} {cq_list(cev)} {cq_list(cres)} {crow} {cst} {cfl})")
 
     def correspond(self):
         g = Gen(self.rng)
-        n = 140 if self.tier == "quick" else 2500
+        n = 140 if self.tier == "quick" else 1500
         root = str(scratch_dir("rv_c31_"))
         cwd = os.getcwd()
         os.chdir(root)
@@ -488,12 +499,15 @@ class Check(PropertyCheck):
                     self.stat("value_kind", kind_of(v)[0] + (":empty-serialization" if isinstance(v, EmptySer) else ""))
                 nontriv = any(k == "rec" for k, _ in evs) and any(k == "get" for k, _ in evs)
                 self.count(json.dumps(d, default=str) if nontriv else None)
-                self.sample({"conf(store,min,max)": conf, "values": d["values"], "events": evs[:8], "results": res[:8]}, 4)
+                self.sample({"conf(store,min,max)": conf, "values": d["values"], "events": evs[:8],
+                             "results": [x if isinstance(x, str) else "RHash " + x[1].decode()[:8] for x in res[:8]]}, 4)
         finally:
             os.chdir(cwd)
             shutil.rmtree(root, ignore_errors=True)
-        ok, failing, diags = run_bool_cases("C31", ["Base.Lit", "Model.ValueStore", "Gen.C31Gen"], "", terms, chunk=25)
-        self.ob("correspondence", f"model (with the regenerated code shape) == real backend on {len(terms)} histories "
+        reqs = ["Base.Lit", "Model.ValueStore"] + (["Gen.C31Gen"] if self.shape == "gen" else [])
+        ok, failing, diags = run_bool_cases("C31", reqs, "", terms, chunk=25)
+        self.ob("correspondence", f"model (code shape: {'regenerated from /repo' if self.shape == 'gen' else 'shipped; source not recognised'}) "
+                f"== real backend on {len(terms)} histories "
                 "(every event result, final value table, value store files, FileCache files)",
                 ok and not failing, "\n".join(diags) + "".join(f"\nmismatch: {descr[i]}" for i in failing[:5]))
 
